@@ -71,21 +71,22 @@ Definition security_from_endpoint (ep : endpoint) (t : tok) : option string :=
 Record asym_info := { ai_ok : bool; ai_plain : Z; ai_nonce : Z }.
 
 Section WithRows.
-  (* rows abstracted from Gen.PolicyParams.asym_row to keep this file independent of the generated record *)
-  Variable rows : list (string * Z * asym_info).
+  (* rows abstracted from Gen.InteropTables.asym_mixed: (policy, local key bytes, remote key bytes, info) *)
+  Variable rows : list (string * Z * Z * asym_info).
 
-  Fixpoint find_row (pol : string) (kb : Z) (l : list (string * Z * asym_info)) : option asym_info :=
+  Fixpoint find_row (pol : string) (lk rk : Z) (l : list (string * Z * Z * asym_info)) : option asym_info :=
     match l with
     | [] => None
-    | (p, k, i) :: r => if String.eqb p pol && (k =? kb) then Some i else find_row pol kb r
+    | (p, a, b, i) :: r => if String.eqb p pol && (a =? lk) && (b =? rk) then Some i else find_row pol lk rk r
     end.
 
-  Definition asym_accept (pol : string) (kb : Z) : bool :=
-    match find_row pol kb rows with Some i => ai_ok i | None => false end.
-  Definition asym_plain (pol : string) (kb : Z) : Z :=
-    match find_row pol kb rows with Some i => ai_plain i | None => 0 end.
-  Definition asym_nonce (pol : string) (kb : Z) : Z :=
-    match find_row pol kb rows with Some i => ai_nonce i | None => 0 end.
+  (* the end holding a key of lk bytes builds uapolicy.Asymmetric(policy, own key, peer key of rk bytes) *)
+  Definition asym_accept (pol : string) (lk rk : Z) : bool :=
+    match find_row pol lk rk rows with Some i => ai_ok i | None => false end.
+  Definition asym_plain (pol : string) (lk rk : Z) : Z :=
+    match find_row pol lk rk rows with Some i => ai_plain i | None => 0 end.
+  Definition asym_nonce (pol : string) (lk rk : Z) : Z :=
+    match find_row pol lk rk rows with Some i => ai_nonce i | None => 0 end.
 End WithRows.
 
 (* ---- Part 7 (v1.04) profile limits: SecureChannelNonceLength, Min/MaxAsymmetricKeyLength (bytes) ---- *)
@@ -112,7 +113,8 @@ Definition spec_key_ok (pol : string) (kb : Z) : bool :=
 (* ---- the composition ---- *)
 Record tables := {
   t_levels : list (string * list Z);
-  t_rows : list (string * Z * asym_info);
+  t_rows : list (string * Z * Z * asym_info);
+  t_chunk_rt : list (Z * Z * bool);          (* OPN chunk from a sender key size to a receiver key size *)
   t_sym_nonce : list (string * Z);            (* nonce length used for key derivation per policy *)
   t_sym_dir : list (string * (bool * bool));
   t_asym_rt : list (string * bool);
@@ -120,7 +122,8 @@ Record tables := {
   t_sess_nonce_server : Z;
   t_sess_nonce_client : Z }.
 
-Record config := { c_pol : string; c_mode : Z; c_kb : Z; c_tok : tok }.
+(* c_kb: the client's key size in bytes, c_skb: the server's *)
+Record config := { c_pol : string; c_mode : Z; c_kb : Z; c_skb : Z; c_tok : tok }.
 
 (* the server of a run: None/None plus exactly the pair under test; anonymous and username enabled *)
 Definition server_pairs (c : config) : list secpair :=
@@ -134,11 +137,22 @@ Definition run_endpoints (T : tables) (c : config) : list endpoint := endpoints_
 
 Definition secured (c : config) : bool := negb (c_mode c =? 1).
 
-(* OpenSecureChannel: both ends build uapolicy.Asymmetric(policy, own key, peer key); unsecured channels use nil keys,
-   which only the None policy is run with in this matrix *)
+Definition chunk_rt (T : tables) (sender receiver : Z) : bool :=
+  existsb (fun r => (fst (fst r) =? sender) && (snd (fst r) =? receiver) && snd r) (t_chunk_rt T).
+
+(* both ends accept the key pair (each builds uapolicy.Asymmetric(policy, own key, peer key)) *)
+Definition both_accept (T : tables) (pol : string) (c : config) : bool :=
+  asym_accept (t_rows T) pol (c_kb c) (c_skb c) && asym_accept (t_rows T) pol (c_skb c) (c_kb c).
+
+(* OpenSecureChannel: constructors accept, and the asymmetric chunk of the request (client -> server) and of the
+   response (server -> client) survives signAndEncrypt / verifyAndDecrypt across the two key sizes; unsecured
+   channels use nil keys, which only the None policy is run with in this matrix *)
 Definition opn_ok (T : tables) (c : config) : bool :=
   existsb (String.eqb (c_pol c)) (t_supported T) &&
-  (if secured c then asym_accept (t_rows T) (c_pol c) (c_kb c) && (0 <? asym_plain (t_rows T) (c_pol c) (c_kb c))
+  (if secured c then both_accept T (c_pol c) c &&
+                     (0 <? asym_plain (t_rows T) (c_pol c) (c_kb c) (c_skb c)) &&
+                     (0 <? asym_plain (t_rows T) (c_pol c) (c_skb c) (c_kb c)) &&
+                     chunk_rt T (c_kb c) (c_skb c) && chunk_rt T (c_skb c) (c_kb c)
    else String.eqb (c_pol c) "None").
 
 (* channel nonces: what the client sends and what the server answers have the profile's length, and key
@@ -146,7 +160,8 @@ Definition opn_ok (T : tables) (c : config) : bool :=
 Definition nonce_ok (T : tables) (c : config) : bool :=
   if secured c then
     match spec_nonce (c_pol c), assoc (c_pol c) (t_sym_nonce T) with
-    | Some n, Some sn => (0 <? n) && (asym_nonce (t_rows T) (c_pol c) (c_kb c) =? n) && (sn =? n)
+    | Some n, Some sn => (0 <? n) && (asym_nonce (t_rows T) (c_pol c) (c_kb c) (c_skb c) =? n) &&
+                         (asym_nonce (t_rows T) (c_pol c) (c_skb c) (c_kb c) =? n) && (sn =? n)
     | _, _ => false
     end
   else true.
@@ -157,7 +172,7 @@ Definition sym_ok (T : tables) (c : config) : bool :=
 (* CreateSession / ActivateSession signatures: server signs, client verifies, then the other way round *)
 Definition session_sig_ok (T : tables) (c : config) : bool :=
   if secured c then
-    asym_accept (t_rows T) (c_pol c) (c_kb c) &&
+    both_accept T (c_pol c) c &&
     match assoc (c_pol c) (t_asym_rt T) with Some b => b | None => false end &&
     (32 <=? t_sess_nonce_server T) && (32 <=? t_sess_nonce_client T)
   else true.
@@ -173,8 +188,8 @@ Definition user_token_ok (T : tables) (ep : endpoint) (c : config) : bool :=
   | TUser =>
       let u := auth_uri ep c in
       if String.eqb u "None" then true      (* password sent as is *)
-      else existsb (String.eqb u) (t_supported T) && asym_accept (t_rows T) u (c_kb c) &&
-           (0 <? asym_plain (t_rows T) u (c_kb c)) &&
+      else existsb (String.eqb u) (t_supported T) && asym_accept (t_rows T) u (c_kb c) (c_skb c) &&
+           (0 <? asym_plain (t_rows T) u (c_kb c) (c_skb c)) &&
            match assoc u (t_asym_rt T) with Some b => b | None => false end
   end.
 
@@ -200,14 +215,20 @@ Definition connect_ok (T : tables) (c : config) : bool := connect_ok_on T (serve
 Definition key_sizes : list Z := [128; 256; 384; 512].   (* RSA-1024/2048/3072/4096 *)
 Definition modes : list Z := [1; 2; 3].
 
+(* key size pairs (client, server): both within the policy's limits as each end's constructor sees them *)
+Definition key_pairs (T : tables) (pol : string) (m : Z) : list (Z * Z) :=
+  if m =? 1 then [(0, 0)]
+  else filter (fun p => asym_accept (t_rows T) pol (fst p) (snd p) && asym_accept (t_rows T) pol (snd p) (fst p))
+              (list_prod key_sizes key_sizes).
+
 Definition configs_of_policy (T : tables) (pol : string) : list config :=
   flat_map (fun m =>
     if 0 <? level_of (t_levels T) pol m then
-      flat_map (fun kb =>
-        flat_map (fun t => let c := {| c_pol := pol; c_mode := m; c_kb := kb; c_tok := t |} in
+      flat_map (fun kp =>
+        flat_map (fun t => let c := {| c_pol := pol; c_mode := m; c_kb := fst kp; c_skb := snd kp; c_tok := t |} in
                            if token_advertised T c then [c] else [])
                  [TAnon; TUser])
-        (if m =? 1 then [0] else filter (asym_accept (t_rows T) pol) key_sizes)
+        (key_pairs T pol m)
     else []) modes.
 
 Definition all_configs (T : tables) : list config := flat_map (configs_of_policy T) (t_supported T).
